@@ -8,7 +8,7 @@ from vf.gen import pick_weighted
 
 ID = "C49"
 THEOREMS = ["C49_dowild_total", "C49_dowild_sound_complete", "C49_dowild_codes", "C49_dowild_eq_git",
-            "C49_last_match_wins", "C49_decision_unique", "C49_excluded_parent", "C49_pattern_eq_git_refuted",
+            "C49_last_match_wins", "C49_decision_unique", "C49_excluded_parent", "C49_trim_eq_git", "C49_pattern_eq_git_refuted",
             "C49_pattern_eq_git_partial"]
 MODEL_FILES = ["Gitignore.v"]
 MODELLED = ("plumbing/format/gitignore: pattern.go ParsePattern, pattern.Match, simpleNameMatch, globMatch, wildmatch, dowild "
@@ -40,7 +40,7 @@ LEVEL_NOTE = ("trusted: Coq 8.16.1 kernel; the correspondence harness; S is a tr
 # ---------------------------------------------------------------- generators
 
 COMMON = [b"a", b"b", b"c", b"ab", b"abc", b"foo", b"bar", b"foobar", b"a.c", b"b.c", b"x", b"ba", b"aa"]
-ODD = [b"a b", b"a ", b"!a", b"#a", b"a*", b"*", b"[a]", b"a?", b"a\\b", b" a", b"A", b"\xc3\xa9", b"a\tb", b"-", b"a-c", b"]", b"a]", b"\\", b"**", b"a!"]
+ODD = [b"a b", b"a ", b"a ", b"b  ", b"foo ", b"!a", b"#a", b"a*", b"*", b"[a]", b"a?", b"a\\b", b" a", b"A", b"\xc3\xa9", b"a\tb", b"-", b"a-c", b"]", b"a]", b"\\", b"**", b"a!"]
 
 
 def rname(rng):
@@ -65,10 +65,16 @@ def gen_tree(rng, tier):
     return tree
 
 
+def escape_name(name):
+    return b"".join(b"\\" + bytes([c]) if c in b" *?[\\!#" else bytes([c]) for c in name)
+
+
 def glob_of(rng, name):
     """a glob segment related to `name`"""
     k = rng.randrange(16)
     n = len(name)
+    if any(c in b" *?[\\" for c in name) and rng.random() < 0.6:
+        return escape_name(name) if rng.random() < 0.7 else name[:-1] + b"\\" + name[-1:]
     if k <= 2 or n == 0:
         return name
     if k == 3:
@@ -175,6 +181,8 @@ def gen_file(rng, tree, base, tier):
     content = sep.join(lines)
     if rng.random() < 0.9:
         content += sep
+    if rng.random() < 0.04:
+        content = b"\xef\xbb\xbf" + content
     return content
 
 
@@ -258,14 +266,9 @@ def git_verdicts(tmp, tpl, case):
 # ---------------------------------------------------------------- classification of known divergences
 
 def go_trim(line):
-    """ParsePattern's view of a raw line: (negated, body without the dir-only slash)"""
-    neg = line.startswith(b"!")
-    p = line[1:] if neg else line
-    if not p.endswith(b"\\ "):
-        p = p.rstrip(b" ")
-    if p.endswith(b"/"):
-        p = p[:-1]
-    return neg, p
+    """ParsePattern's view of a raw line: (negated, body without the dir-only slash); since the
+    fix the trailing-space rule is git's"""
+    return git_trim(line)
 
 
 def git_trim(line):
@@ -435,12 +438,8 @@ def classify(case, qi, impl_v, git_v, git_detail, why, model_v):
     else:
         return None
     raw = c["raw"]
-    if c["content"].startswith(BOM) and c["key"][1] == 1:
-        return "utf8-bom"
     if raw.strip(WS) == b"" and raw.strip(b" ") != b"":
         return "whitespace-only-line" if who == "git" else None
-    if go_trim(raw) != git_trim(raw):
-        return "trailing-space-escape"
     neg, body = git_trim(raw)
     shapes = shape_classes(body)
     for cls in shapes:
@@ -653,6 +652,14 @@ class Wild(Suite):
 
     def gen(self, rng, n, tier):
         cases = [{"bucket": "fixed", "op": "dowild", "p": p.hex(), "t": t.hex(), "flags": 0} for p, t in WILD_FIXED]
+        if tier == "thorough":
+            # small-scope exhaustion: every pattern of length <= 3 over the special bytes, every text of length <= 2
+            from vf.gen import all_strings
+            texts = list(all_strings(b"a-]", 2))
+            for p in all_strings(b"a*?[]\\-!", 3):
+                for t in texts:
+                    cases.append({"bucket": "exhaustive", "op": "dowild", "p": p.hex(), "t": t.hex(), "flags": 0})
+            n += len(cases)
         while len(cases) < n:
             b = pick_weighted(rng, [(4, "fragment"), (2, "glob_of"), (2, "alphabet"), (1, "stars")])
             if b == "fragment":
